@@ -2,6 +2,7 @@ package sx
 
 import (
 	"bufio"
+	"os"
 	"fmt"
 	"io"
 	"os/exec"
@@ -26,6 +27,10 @@ type Solver struct {
 	ufDone  []map[string]bool
 	log     io.Writer
 	timeout int // ms
+	lines   chan string
+	ring    []string
+	Hung    int
+	broken  bool
 }
 
 func NewSolver(kind string, timeoutMs int) (*Solver, error) {
@@ -62,6 +67,20 @@ func (s *Solver) start() error {
 	}
 	s.in = in
 	s.out = bufio.NewReaderSize(out, 1<<16)
+	s.lines = make(chan string, 1024)
+	s.broken = false
+	go func(r *bufio.Reader, ch chan string) {
+		for {
+			line, err := r.ReadString('\n')
+			if line != "" {
+				ch <- line
+			}
+			if err != nil {
+				close(ch)
+				return
+			}
+		}
+	}(s.out, s.lines)
 	s.defined = []map[int32]bool{{}}
 	s.ufDone = []map[string]bool{{}}
 	s.send("(set-option :print-success false)")
@@ -92,6 +111,10 @@ func (s *Solver) send(line string) {
 	if s.log != nil {
 		fmt.Fprintln(s.log, line)
 	}
+	if len(s.ring) >= 400 {
+		s.ring = s.ring[200:]
+	}
+	s.ring = append(s.ring, line)
 	io.WriteString(s.in, line)
 	io.WriteString(s.in, "\n")
 }
@@ -189,8 +212,34 @@ const (
 
 func (r SatResult) String() string { return [...]string{"unsat", "sat", "unknown"}[r] }
 
+// readRaw returns the next output line of the solver; a solver that stays silent for longer than its
+// own per-query timeout plus a grace period is killed and restarted (the current path is lost).
+func (s *Solver) readRaw() (string, error) {
+	if s.broken {
+		return "", io.EOF
+	}
+	select {
+	case line, ok := <-s.lines:
+		if !ok {
+			s.broken = true
+			return "", io.EOF
+		}
+		return line, nil
+	case <-time.After(time.Duration(s.timeout)*time.Millisecond + 20*time.Second):
+		s.Hung++
+		s.broken = true
+		if f, err := os.CreateTemp("", "gosx-hang-*.smt2"); err == nil {
+			for _, l := range s.ring {
+				fmt.Fprintln(f, l)
+			}
+			f.Close()
+		}
+		return "", io.EOF
+	}
+}
+
 func (s *Solver) readLine() (string, error) {
-	line, err := s.out.ReadString('\n')
+	line, err := s.readRaw()
 	return strings.TrimSpace(line), err
 }
 
@@ -282,7 +331,7 @@ func (s *Solver) readSexp() string {
 	depth := 0
 	started := false
 	for {
-		line, err := s.out.ReadString('\n')
+		line, err := s.readRaw()
 		for _, c := range line {
 			if c == '(' {
 				depth++
@@ -417,3 +466,6 @@ func parseValue(toks []string, j int, sort Sort) (uint64, int) {
 	}
 	return 0, j + 1
 }
+
+// Broken reports that the solver process was lost (hang watchdog or crash); Restart before reuse.
+func (s *Solver) Broken() bool { return s.broken }
